@@ -85,13 +85,27 @@ class C13(Check):
             cols = fml.gen_trace(rng, 1, n)
             cases.append({'f': f, 'n': n, 'nv': 1, 'cols': cols, 'ts': [int(x) for x in ts], 'period': [p, pu, tol], 'unit': du, 'prior': None, 'decimal': 1,
                           'expected': count_bad(P, T, ts), 'ngaps': n - 1, 'mon': rng.choice(['online', 'offline']), 'ctor': rng.choice(['split', 'combined'])})
+        # decimal time-stamps (seconds with two decimals) whose gaps lie exactly on the tolerance interval: 0.52 - 0.41 is not 0.11 in floats
+        for k in range(12 if tier == 'quick' else 200):
+            p, pu, du, tol = rng.choice([(100, 'ms', 's', 0.1), (0.1, 's', 's', 0.1), (200, 'ms', 's', 0.05), (50, 'ms', 's', 0.2)])
+            P = Fraction(str(p)) * U[pu] / U[du]
+            T = Fraction(str(tol))
+            lo, hi = P - P * T, P + P * T
+            n = rng.choice([4, 6, 9])
+            ts = [Fraction(rng.choice([0, 0, 3]))]
+            for _ in range(n - 1):
+                ts.append(ts[-1] + rng.choice([lo, hi, lo, hi, P, lo - Fraction(1, 100), hi + Fraction(1, 100)]))
+            cols = fml.gen_trace(rng, 1, n)
+            cases.append({'f': f, 'n': n, 'nv': 1, 'cols': cols, 'ts': [float(x) for x in ts], 'period': [p, pu, tol], 'unit': du, 'prior': None, 'decimal': 2,
+                          'expected': count_bad(P, T, ts), 'ngaps': n - 1, 'mon': rng.choice(['online', 'offline']), 'ctor': rng.choice(['split', 'combined'])})
         return cases
 
     def model_lines(self, c):
         P = Fraction(str(c['period'][0])) * U[c['period'][1]] / U[c['unit']]
         q = lambda x: '%d %d' % (Fraction(x).numerator, Fraction(x).denominator)
         tol = Fraction(str(c['period'][2])) if c.get('decimal') else Fraction(c['period'][2])
-        return ['(jitter (%s) (%s) (%s))' % (q(P), q(tol), ' '.join('(%s)' % q(x) for x in c['ts']))]
+        stamp = (lambda x: Fraction(str(x))) if c.get('decimal') == 2 else Fraction
+        return ['(jitter (%s) (%s) (%s))' % (q(P), q(tol), ' '.join('(%s)' % q(stamp(x)) for x in c['ts']))]
 
     def impl_cases(self, c):
         base = {'vars': ['xa'], 'spec': 'out = ' + fml.to_text(c['f']), 'unit': c['unit'], 'period': c['period'], 'ctor': c['ctor']}
@@ -138,7 +152,7 @@ class C13(Check):
         return 0 < c['expected'] < c['ngaps']
 
     def features(self, c):
-        return ['unit_' + c['unit'], 'punit_' + c['period'][1], c['mon'], c['ctor'], 'tol_%s' % c['period'][2], 'n1' if c['n'] == 1 else 'n>1'] + (['second_evaluate'] if c.get('prior') else []) + (['decimal_boundary'] if c.get('decimal') else [])
+        return ['unit_' + c['unit'], 'punit_' + c['period'][1], c['mon'], c['ctor'], 'tol_%s' % c['period'][2], 'n1' if c['n'] == 1 else 'n>1'] + (['second_evaluate'] if c.get('prior') else []) + (['decimal_boundary'] if c.get('decimal') == 1 else []) + (['decimal_stamps'] if c.get('decimal') == 2 else [])
 
     def key(self, c):
         return json.dumps([c['ts'], c['period'], c['unit'], c['mon'], c['ctor'], c.get('prior')])
